@@ -1017,9 +1017,11 @@ impl World {
         let mut interfaces = IndexMap::new();
         let mut add_interface_for_used_type = |used_item: &UsedType| {
             let used_interface_id = used_item.interface;
-            // The id must be set since used interfaces are always named.
-            let used_interface_name = types[used_interface_id].id.as_deref().unwrap();
-            interfaces.insert(used_interface_name, ItemKind::Instance(used_interface_id));
+            // Used interfaces are named, except in packages that use a type of a
+            // plainly named instance import; those cannot be imported by identifier.
+            if let Some(used_interface_name) = types[used_interface_id].id.as_deref() {
+                interfaces.insert(used_interface_name, ItemKind::Instance(used_interface_id));
+            }
         };
 
         for (_, used_type) in self.uses.iter() {
